@@ -11,7 +11,7 @@ JUDGES = ["c13"]
 
 def main(tier: str, seed: int) -> int:
     run = Run(PROP, tier, seed)
-    extra = {"start_rules": "all", "positions": True, "extra_alpha": " #\n", "profile_overrides": {"trivia_refs": True, "trivia_explicit": True, "push_empty": True, "zero_counts": True}}
+    extra = {"start_rules": "all", "positions": True, "extra_alpha": " #\n", "profile_overrides": {"more_builtins": True, "trivia_refs": True, "trivia_explicit": True, "push_empty": True, "zero_counts": True}}
     shards = []
     shards += E.random_shards(PROP, run, JUDGES, profile="full", count=run.pick(45, 500), cap=run.pick(150, 300), maxlen=run.pick(4, 5), extra={**extra, "long_inputs": 2})
     shards += E.random_shards(PROP, run, JUDGES, profile="trivia", count=run.pick(30, 300), cap=run.pick(150, 300), maxlen=4, extra=extra)
